@@ -133,8 +133,12 @@ def _extract_model(ctx, fq: str) -> T.Dict[str, T.Any]:
                 arg = v.args[0]
                 if isinstance(arg, ast.Call) and unparse(arg.func) == "_replace_pattern_parts" and isinstance(arg.args[0], ast.Name) and arg.args[0].id in running:
                     info["final"] = "<inline>"
+                elif isinstance(arg, ast.Name) and arg.id == info["final"]:
+                    pass
+                elif any(isinstance(x, ast.Name) and x.id == info["final"] for x in ast.walk(arg)):
+                    info["wrapped"] = arg          # the text is edited once more between escaping and compiling
                 else:
-                    ctx.require(isinstance(arg, ast.Name) and arg.id == info["final"], f"{fq}: re.compile does not receive the result of _replace_pattern_parts")
+                    raise AnalysisError(f"{fq}: re.compile does not receive the result of _replace_pattern_parts")
                 continue
             raise AnalysisError(f"{fq}: statement `{unparse(st)[:70]}` is outside the escaping model")
 
@@ -327,6 +331,11 @@ def run(ctx) -> None:
     for eng, fq in engines.items():
         model = _extract_model(ctx, fq)
         fn = model["fn"]
+        if model.get("wrapped") is not None:
+            ctx.bad("R3", f"{fq}: the escaped pattern is edited again before it is compiled",
+                    f"`{unparse(model['wrapped'])[:80]}`: the text that was escaped character by character is passed through another function; what is compiled "
+                    f"is no longer the literal-preserving expression (e.g. a display formatter that protects blanks only: `#` then starts a comment under re.VERBOSE)",
+                    loc=fn.loc(model["wrapped"]), witness={"pattern": "# version: {version}"}, what=f"{fq}: re.compile receives the escaped text itself")
         ctx.check("R3", not model["flags"], f"{fq}: re.compile without flags (no VERBOSE/IGNORECASE)",
                   f"{fq}: pattern compiled with regex flags", unparse(model["compile"]), loc=fn.loc(model["compile"]))
         if model["table_loops"]:
